@@ -48,10 +48,12 @@ class LeanSide:
         self.lockfile = open(LEAN / ".buildlock", "w")
         self.depth = 0
 
-    def locked(self):
-        """re-entrant: the check holds the lock from regeneration to the end of the audit"""
+    def locked(self, shared=False):
+        """re-entrant: the check holds the lock from regeneration to the end of the audit.
+        Readers of the compiled modules (audit, model drivers) take it shared, so a long
+        driver run does not hold up other drivers, only rebuilds."""
         if self.depth == 0:
-            fcntl.flock(self.lockfile, fcntl.LOCK_EX)
+            fcntl.flock(self.lockfile, fcntl.LOCK_SH if shared else fcntl.LOCK_EX)
         self.depth += 1
 
     def unlock(self):
@@ -136,7 +138,7 @@ class LeanSide:
         if not lines:
             return [], ""
         inp = "".join(canon(l) + "\n" for l in lines)
-        self.locked()
+        self.locked(shared=True)
         try:
             p = subprocess.run(["lake", "env", "lean", "--run", driver], cwd=LEAN,
                                input=inp, capture_output=True, text=True, timeout=timeout)
